@@ -11,6 +11,7 @@ mod sched;
 mod shape;
 mod spec;
 mod typeprobe;
+mod caps;
 mod world;
 
 use serde::{Deserialize, Serialize};
@@ -108,6 +109,7 @@ fn coverage_keys(scn: &Scenario, cov: &mut BTreeMap<String, u64>) {
                     TSpec::Tagged(..) => "tagged".to_string(),
                     TSpec::Group { .. } => "group".to_string(),
                     TSpec::MutRefs { kind, .. } => format!("mutrefs-{:?}", kind),
+                    TSpec::Slice { kind, boxed, poison, .. } => format!("{}slice-{}-{:?}", if *poison { "poisonable-" } else { "" }, if *boxed { "box" } else { "vec" }, kind),
                     TSpec::OnData { kind, poison, from, .. } => format!("{}{}-{:?}", if *poison { "poisonable-" } else { "" }, if *from { "from" } else if *kind == CollKind::Ref { "new" } else { "new_ref" }, kind),
                 };
                 *cov.entry(format!("{}/{:?}", kind, a.api)).or_insert(0) += 1;
@@ -259,7 +261,11 @@ fn process_run(prop: &str, seed: u64, idx: u64, variant: u64, run_seed: u64, scn
             }
         }
         if let Some(ev) = mine {
-            if first.map(|f| oracle::property_of(f.clause, &scn) != "HARNESS").unwrap_or(true) && out.violations.len() < max_viol {
+            // events of the recorded finding "data escapes a scoped closure" are capped on their own,
+            // so that they can never use up the room for other violations
+            let esc = ev.clause == sched::Clause::EscapedAccess;
+            let room = if esc { out.violations.iter().filter(|v| v.clause == "EscapedAccess").count() < 2 } else { out.violations.iter().filter(|v| v.clause != "EscapedAccess").count() < max_viol };
+            if first.map(|f| oracle::property_of(f.clause, &scn) != "HARNESS").unwrap_or(true) && room {
                 let mut scn2 = scn.clone();
                 scn2.cfg.replay = Some(r.out.trace.clone());
                 let path = format!("{}/{}-{}-{}.replay.json", replay_dir, prop, run_seed, variant);
